@@ -79,6 +79,11 @@ FreshWithin(o, slack) ==
       ELSE \E k \in OwnFiles(o, i) : o.now - o.f[k][2] <= RefreshToMs + slack + StallOf(o, i)
 FreshWhileActive(o) == FreshWithin(o, SlackMs)
 
+\* C13: stops issuing repository modifications: a non-lock modification <<process, time, cancelled, frozen>> never
+\* reaches the storage (the layer below the connection limiting backend) with the lock context of its process
+\* already cancelled - in particular not after it waited at the freeze gate while the forced refresh failed
+NoWriteAfterCancel(mods) == \A k \in 1..Len(mods) : mods[k][3] = 0
+
 \* C13: removes its lock when it finishes
 ReleasedClean(o) ==
   \A i \in 1..Len(o.p) : o.p[i][6] = 1 => OwnFiles(o, i) = {}
